@@ -248,25 +248,37 @@ where
     R: tokio::io::AsyncRead + Unpin,
 {
     let mut interval = tokio::time::interval(tokio::time::Duration::from_millis(FLUSH_INTERVAL_MS));
+    // Holds the bytes of a line that is not complete yet. When another `select!` branch wins,
+    // `read_until` has already appended what it read to this buffer, so it has to outlive
+    // the iteration or those bytes are lost.
+    let mut buf = Vec::new();
     loop {
         let mut bufs = Vec::new();
         loop {
-            let mut buf = Vec::new();
             tokio::select! {
                 _ = token.cancelled() => {
+                    if !buf.is_empty() {
+                        bufs.push(std::mem::take(&mut buf));
+                    }
                     process_bufs(&header, bufs, &compressor_client, &mut log_stream_client, true).await?;
                     return Err(MonorailError::TaskCancelled);
                 }
                 res = reader.read_until(b'\n', &mut buf) => {
                     match res {
                         Ok(0) => {
+                            if !buf.is_empty() {
+                                bufs.push(std::mem::take(&mut buf));
+                            }
                             process_bufs(&header, bufs, &compressor_client, &mut log_stream_client, true).await?;
                             return Ok(());
                         },
                         Ok(_n) => {
-                            bufs.push(buf);
+                            bufs.push(std::mem::take(&mut buf));
                         }
                         Err(e) => {
+                            if !buf.is_empty() {
+                                bufs.push(std::mem::take(&mut buf));
+                            }
                             process_bufs(&header, bufs, &compressor_client, &mut log_stream_client, true).await?;
                             return Err(MonorailError::from(e));
                         }
